@@ -247,12 +247,15 @@ def r40_broadcast(facts):
             except (Abstain, Unsupported, RecursionError) as ex:
                 vals = [("unk", str(ex))]
             inst = "scalar:%s" % tr.rsplit("::", 1)[-1]
-            if len(vals) != 1 or vals[0][0] != "arr":
-                c.unk(inst, where, "forward value outside the algebra (%s)" % (str(vals[0][1])[:80] if vals else "?"))
+            if not vals or any(v[0] != "arr" for v in vals):
+                bad_ = [v for v in vals if v[0] != "arr"]
+                c.unk(inst, where, "forward value outside the algebra (%s)" % (str(bad_[0][1])[:80] if bad_ else "?"))
                 continue
             want = specs[tr](fw.alg.atom("a0"), fw.alg.atom("a1"))
             try:
-                c.check(same(vals[0][1], want), inst, where, "element = %r" % want, "the operator computes %r per element, not %r" % (vals[0][1], want))
+                wrong = [v for v in vals if not same(v[1], want)]
+                c.check(not wrong, inst, where, "element = %r%s" % (want, " on all %d paths" % len(vals) if len(vals) > 1 else ""),
+                        "on %s the operator computes %r per element, not %r" % ("one of its paths" if len(vals) > 1 else "every path", wrong[0][1] if wrong else "", want))
             except Unsupported:
                 c.unk(inst, where, "comparison outside the algebra")
     c.floor("binary element-wise operators on &Array", n_ops, 4)
